@@ -59,4 +59,6 @@ class SpecBuilder:
 
     def out(self, *names: str) -> Dict[str, Any]:
         self.spec["outputs"] = list(names)
+        self.spec["vshapes"] = {k: list(v) for k, v in self.shapes.items()}
+        self.spec["vkinds"] = dict(self.kinds)
         return self.spec
